@@ -192,6 +192,7 @@ func NewInterp(cfg *Config, id int) *Interp {
 		cfg:     cfg,
 		id:      id,
 		stubs:   map[string]value{},
+		syncMaps: map[*value]*omap{},
 	}
 	if rt := cfg.Prog.ImportedPackage("runtime"); rt != nil {
 		in.runtimeErrorType = rt.Type("errorString").Object().Type()
@@ -300,6 +301,12 @@ func (ex *Explorer) worker(id int) {
 		return
 	}
 	defer sol.Close()
+	if p := os.Getenv("SYMGO_SMTLOG"); p != "" && id == 0 {
+		if f, err := os.Create(p); err == nil {
+			sol.Log = f
+			defer f.Close()
+		}
+	}
 	in.sol = sol
 	for {
 		it := ex.take()
@@ -529,6 +536,11 @@ func (in *Interp) setModel(m map[string]uint64) {
 }
 
 func (in *Interp) syncSolver() {
+	if in.solGen != in.sol.Gen {
+		// the solver process was restarted: every assertion has to be re-sent
+		in.solGen = in.sol.Gen
+		in.solFresh = false
+	}
 	if !in.solFresh {
 		in.sol.Reset()
 		in.solFresh = true
